@@ -59,7 +59,7 @@ const techSX = "symbolic execution of the real code's go/ssa (GoSX) with SMT (z3
 var properties = map[string]propSpec{
 	"C01": {
 		Level: "model_checking", Technique: techSX + "; differential against a reference interpreter (refEval) over an explicit model tree built from the same symbolic leaves",
-		Bounds:  [2]string{"datum {x: V, y: scalar}: V over 21 shapes (10 scalar kinds incl. named, pointer, nil pointer, json.Number, nil; []interface{} of 0..2 scalars, []int8, [2]string, map[string]interface{} over 2 keys, map[string]int8, tagged struct (renamed/hidden/unexported/untagged fields, behind a pointer or not), []*int8 with nil, []byte, named-string-keyed map, list of maps, []struct), leaves symbolic; 15 selector forms x 8 operators x 6 literals, with and without an unknown value (quick: every (shape, operator) pair with the 3 direct selector forms + 1 seed-selected, literal \"1\" + 1 seed-selected, no unknown value or 1 seed-selected); 15 composite templates (quick: 3 seed-selected per pair) (connectives, quantifiers in all binding modes, nested, aliases, JSON pointers); three Go representations of one document", "all 21 shapes"},
+		Bounds:  [2]string{"datum {x: V, y: scalar}: V over 21 shapes (10 scalar kinds incl. named, pointer, nil pointer, json.Number, nil; []interface{} of 0..2 scalars, []int8, [2]string, map[string]interface{} over 2 keys, map[string]int8, tagged struct (renamed/hidden/unexported/untagged fields, behind a pointer or not), []*int8 with nil, []byte, named-string-keyed map, list of maps, []struct), leaves symbolic; 15 selector forms x 8 operators x 6 literals, with and without an unknown value (quick: every (shape, operator) pair with 5 structural selector forms (x, x.a, x.0, absent leaf, three parts) + 1 seed-selected, literal \"1\" + 1 seed-selected, no unknown value or 1 seed-selected); 15 composite templates (quick: 3 seed-selected per pair) (connectives, quantifiers in all binding modes, nested, aliases, JSON pointers); three Go representations of one document", "all 21 shapes"},
 		Outside: "what refEval calls unspecified (assumed away): non-canonical list indices, NaN; datum shapes beyond the 21; more than one container level below x; map key types other than string / named string",
 	},
 	"C20": {
